@@ -217,6 +217,25 @@ def encMapFieldSorted (fid : Nat) (es : List (Bytes × Bytes)) : Bytes :=
 (paths here contain no byte that %q escapes) -/
 def importLine (e : Bytes × Bytes) : Bytes := e.2 ++ [32, 34] ++ e.1 ++ [34, 10]
 
+/-- "github.com/cloudwego/" (fastgo's cloudwegoRepoPrefix) -/
+def cloudwegoPrefix : Bytes :=
+  [103, 105, 116, 104, 117, 98, 46, 99, 111, 109, 47, 99, 108, 111, 117, 100, 119, 101, 103, 111, 47]
+
+def isCloudwego (e : Bytes × Bytes) : Bool := cloudwegoPrefix.isPrefixOf e.1
+
+def byPath (a b : Bytes × Bytes) : Bool := bytesLe a.1 b.1
+
+/-- fastgo's import block after go/format: `(*codewriter).Imports` puts the non-cloudwego paths in a
+first group and the cloudwego ones in a second, separated by an empty line, each in iteration
+order; go/format (ast.SortImports) then sorts every group by import path. -/
+def importsFormatted (es : List (Bytes × Bytes)) : Bytes :=
+  emit importLine (sortedBy byPath (es.filter fun e => !isCloudwego e)) ++ [10] ++
+  emit importLine (sortedBy byPath (es.filter isCloudwego))
+
+/-- the same block when go/format does not run (`no_fmt`) -/
+def importsUnformatted (es : List (Bytes × Bytes)) : Bytes :=
+  emit importLine (es.filter fun e => !isCloudwego e) ++ [10] ++ emit importLine (es.filter isCloudwego)
+
 /-- one entry of `Name2Category` (map<string, i32>) as (*Thrift).FastAppend writes it -/
 def encNameCategory (e : Bytes × Nat) : Bytes := encStr e.1 ++ be32 e.2
 
